@@ -52,6 +52,26 @@ func (e *Exec) callValue(s *State, f *Frame, in ssa.Value, fnv Value, args []Val
 		return
 	case *FuncV:
 		if strings.HasPrefix(fv.Name, "builtin:") {
+			if fv.Name == "builtin:copy" && in != nil && s.pure == 0 {
+				// copy from a source of small constant length into a destination of unknown length: split into
+				// "destination is long enough" (exact byte stores) and "destination is shorter" (generic model)
+				if d, ok := args[0].(*SliceV); ok && d.Base != nil && !d.Len.Const {
+					if _, _, slen := e.srcArr(s, args[1]); slen.Const && slen.C > 0 && slen.C <= 32 {
+						short := e.c.ULt(d.Len, slen)
+						other := s.clone()
+						other.assume(short)
+						other.trace = append(other.trace, e.posStr(pos)+": copy destination shorter than source")
+						of := other.frames[len(other.frames)-1]
+						of.env[in] = e.copyBuiltin(other, args[0], args[1])
+						e.work = append(e.work, other)
+						s.assume(e.c.Not(short))
+						nd := &SliceV{Base: d.Base, Off: d.Off, Len: slen, Cap: d.Cap, Nil: d.Nil, Elem: d.Elem}
+						e.copyBuiltin(s, nd, args[1])
+						setRes(slen)
+						return
+					}
+				}
+			}
 			setRes(e.builtin(s, f, fv.Name[8:], args, key, pos, resType))
 			return
 		}
@@ -86,6 +106,7 @@ func (e *Exec) callFunc(s *State, f *Frame, in ssa.Value, fn *ssa.Function, args
 	if origin := fn.Origin(); origin != nil {
 		full = origin.String()
 	}
+	e.atCallAsserts(s, f, full, fn.Name(), args, pos, key)
 	// intrinsics
 	if e.intrinsic(s, f, full, fn, args, pos, key, setRes, resType) {
 		return
@@ -123,6 +144,34 @@ func (e *Exec) callFunc(s *State, f *Frame, in ssa.Value, fn *ssa.Function, args
 		s.trace = append(s.trace, e.posStr(pos)+": call "+full+" (havoc)")
 	}
 	e.havocCall(s, fn.Signature, args, free, setRes, resType, full)
+}
+
+// atCallAsserts emits the call-site assertions (`at call <callee>: assert e`) of the function that contains the
+// call; argN:T in the expression denotes the N-th argument of the call (receiver first).
+func (e *Exec) atCallAsserts(s *State, f *Frame, full, name string, args []Value, pos token.Pos, key ssa.Instruction) {
+	if s.pure > 0 || f == nil {
+		return
+	}
+	topc := e.w.contractFor(f.fn)
+	if topc == nil || len(topc.AtCalls) == 0 {
+		return
+	}
+	n := e.counter("call", key)
+	for i, ac := range topc.AtCalls {
+		if ac.Expr.Expr == nil {
+			continue
+		}
+		if !(ac.Callee == full || ac.Callee == name || strings.HasSuffix(full, "."+ac.Callee) || strings.HasSuffix(full, ")."+ac.Callee)) {
+			continue
+		}
+		var g, h *Term
+		e.callArgs = args
+		e.withPol(1, func() { g = e.evalClauseEnv(s, f, ac.Expr, nil, nil) })
+		e.emit(s, fmt.Sprintf("call.%d:%s.assert.%d", n, name, i+1), g, pos)
+		e.withPol(-1, func() { h = e.evalClauseEnv(s, f, ac.Expr, nil, nil) })
+		e.callArgs = nil
+		s.assume(h)
+	}
 }
 
 func (e *Exec) canInline(s *State, fn *ssa.Function) bool {
@@ -285,6 +334,11 @@ func (e *Exec) havocObj(s *State, o *Obj, vis map[*Obj]bool) {
 }
 
 func (e *Exec) callExternOrHavoc(s *State, f *Frame, key string, sig *types.Signature, args []Value, pos token.Pos, ikey ssa.Instruction, setRes func(Value), resType types.Type, invoke bool) {
+	short := key
+	if i := strings.LastIndexAny(key, ".:"); i >= 0 {
+		short = key[i+1:]
+	}
+	e.atCallAsserts(s, f, key, short, args, pos, ikey)
 	if ext := e.w.externs[key]; ext != nil {
 		e.applyContract(s, f, ext, sig, args, pos, ikey, setRes, resType, key)
 		return
@@ -316,21 +370,11 @@ func (e *Exec) applyContract(s *State, f *Frame, con *Contract, sig *types.Signa
 	if s.pure == 0 {
 		n = e.counter("call", key)
 		s.trace = append(s.trace, fmt.Sprintf("%s: call %s (by contract)", e.posStr(pos), short))
-		// call-site assertions of the function under verification
-		if topc := e.w.contractFor(f.fn); topc != nil {
-			for i, ac := range topc.AtCalls {
-				if ac.Callee == con.Key || ac.Callee == short {
-					var g, h *Term
-					e.withPol(1, func() { g = e.evalClauseEnv(s, f, ac.Expr, env, nil) })
-					e.emit(s, fmt.Sprintf("call.%d:%s.assert.%d", n, short, i+1), g, pos)
-					e.withPol(-1, func() { h = e.evalClauseEnv(s, f, ac.Expr, env, nil) })
-					s.assume(h)
-				}
-			}
-		}
 		for i, r := range con.Requires {
 			var g, h *Term
-			e.withPol(1, func() { g = e.evalClauseEnv(s, nil, r, env, nil) })
+			if !applicable(func() { e.withPol(1, func() { g = e.evalClauseEnv(s, nil, r, env, nil) }) }) {
+				continue
+			}
 			e.emit(s, fmt.Sprintf("call.%d:%s.requires.%d", n, short, i+1), g, pos)
 			e.withPol(-1, func() { h = e.evalClauseEnv(s, nil, r, env, nil) })
 			s.assume(h)
@@ -348,7 +392,12 @@ func (e *Exec) applyContract(s *State, f *Frame, con *Contract, sig *types.Signa
 		}
 		if con.HasModifies || con.AlsoModifies {
 			for _, m := range con.Modifies {
-				e.havocLoc(s, m, env)
+				if !applicable(func() { e.havocLoc(s, m, env) }) {
+					vis := map[*Obj]bool{}
+					for _, a := range args {
+						e.havocReach(s, a, vis)
+					}
+				}
 			}
 		}
 	}
@@ -388,7 +437,9 @@ func (e *Exec) applyContract(s *State, f *Frame, con *Contract, sig *types.Signa
 	}
 	for _, en := range con.Ensures {
 		var g *Term
-		e.withPol(-1, func() { g = e.evalClauseEnvRes(s, nil, en, post, old, results) })
+		if !applicable(func() { e.withPol(-1, func() { g = e.evalClauseEnvRes(s, nil, en, post, old, results) }) }) {
+			continue
+		}
 		s.assume(g)
 	}
 }
